@@ -23,8 +23,31 @@ fn neighbourhood_label(h: &Header) -> &'static str {
 
 /// Decode `pic` (inter) on `st` and compare with MC(reference) + residual.
 pub fn check_inter(st: &mut H263State, pic: &Pic, reference: &Planes) -> Result<(ModelOut, Compared, u64), String> {
+    check_inter_cut(st, pic, reference, false)
+}
+
+/// As `check_inter`. With `cut_in_vector` (only for pictures that end early) the data does not end
+/// on a macroblock boundary but inside the header of one more macroblock: COD, MCBPC, CBPY of an
+/// INTER macroblock and the first zero bits of its horizontal vector code, padded with zero bits
+/// to the byte boundary - still a prefix of a valid code, so what the decoder meets there is the
+/// end of the data, and the picture ends before that macroblock all the same.
+pub fn check_inter_cut(st: &mut H263State, pic: &Pic, reference: &Planes, cut_in_vector: bool) -> Result<(ModelOut, Compared, u64), String> {
     let model = reconstruct(pic, Some(reference)).map_err(|e| format!("HARNESS: generator produced an invalid predicted picture: {}", e))?;
-    let bytes = encode_pic(pic);
+    let total = pic.hdr.mb_dims().map(|(a, b)| a * b).unwrap_or(0);
+    let bytes = if cut_in_vector && pic.mbs.len() < total {
+        let mut w = crate::bits::BitWriter::new();
+        encode_header(&pic.hdr, &mut w);
+        for mb in &pic.mbs {
+            encode_mb(mb, &pic.hdr, &mut w);
+        }
+        w.put_bit(false); // COD
+        w.put_code("1"); // MCBPC: INTER, no chroma block coded
+        w.put_code("11"); // CBPY (inter sense): no luma block coded
+        w.put(0, 3); // the first three of the ten leading zeros of the longest vector codes
+        w.to_bytes()
+    } else {
+        encode_pic(pic)
+    };
     match decode_bytes(st, &bytes) {
         Outcome::Ok => {}
         o => {
@@ -74,10 +97,28 @@ pub fn history_case(g: &mut Gen, cfg: &PicCfg) -> Verdict {
             }
         }
         let before = last_digest(&st);
-        let pic = gen_inter_pic(g, cfg, &like, PicType::P, true);
+        let mut pic = gen_inter_pic(g, cfg, &like, PicType::P, true);
+        if pic.hdr.plus == PlusForm::Brief && only_disposable == 0 {
+            // a header that does not restate its format needs an earlier picture to take it from
+            pic.hdr.plus = PlusForm::Full;
+        }
         g.describe(|| json!({"no_reference": true, "disposable_pictures_before": only_disposable, "picture": describe_pic(&pic)}));
         if !needs_prediction(&pic) {
-            return Verdict::Excluded("P picture without reference that happens to be all-intra");
+            // made of intra macroblocks only: nothing is predicted, no reference is needed - the
+            // picture decodes to its own reconstruction
+            let model = match reconstruct(&pic, None) {
+                Ok(m) => m,
+                Err(e) => panic!("HARNESS: invalid all-intra predicted picture: {}", e),
+            };
+            let bytes = encode_pic(&pic);
+            let r = match decode_bytes(&mut st, &bytes) {
+                Outcome::Ok => compare_last(&st, &model.expect).map(|_| ()),
+                o => Err(format!("not decoded: {}", o.short())),
+            };
+            return match r {
+                Ok(()) => Verdict::pass_l(true, fnv64(&bytes) ^ 0x99, vec!["P of intra macroblocks only decodes without a reference", mode_label(&pic.hdr)]),
+                Err(m) => Verdict::fail(format!("predicted picture made of intra macroblocks only ({} {:?}), no reference in the decoder: {}", mode_label(&pic.hdr), pic.hdr.size, m)),
+            };
         }
         let bytes = encode_pic(&pic);
         return match decode_bytes(&mut st, &bytes) {
@@ -154,12 +195,17 @@ pub fn history_case(g: &mut Gen, cfg: &PicCfg) -> Verdict {
             let d = desc.clone();
             g.describe(|| json!({"history": d}));
         }
-        match check_inter(&mut st, &pic, &reference) {
+        let total_mbs = pic.hdr.mb_dims().map(|(a, b)| a * b).unwrap_or(0);
+        let cut = pic.mbs.len() < total_mbs && g.bool();
+        if cut {
+            labels.push("data ends inside a motion vector code");
+        }
+        match check_inter_cut(&mut st, &pic, &reference, cut) {
             Err(m) => {
                 if m.starts_with("HARNESS") {
                     panic!("{}", m);
                 }
-                return Verdict::fail(format!("picture {} of the history (P): {}", j + 1, m));
+                return Verdict::fail(format!("picture {} of the history (P{}): {}", j + 1, if cut { ", data ending inside the vector code of one more macroblock" } else { "" }, m));
             }
             Ok((model, c, k2)) => {
                 key = key.rotate_left(7) ^ k2;
